@@ -509,6 +509,8 @@ def run(rep):
     if crashes:
         rep.crash = crashes[0]
     from pgv.replayers import c02 as R02
+    for res in R02.combined_convert_cases():
+        rep.add_bounded(f"{P}/bounded.{res['name']}", res['ok'], res['detail'], replay={'kind': 'c02.combined', 'name': res['name']})
     for res in R02.native_history_cases():
         rep.add_bounded(f"{P}/bounded.{res['name']}", res['ok'], res['detail'], replay={'kind': 'c02.native_history', 'name': res['name']})
     rep.shape_bounded = {'N': 2, 'what': 'data columns are object arrays of 2 symbolic rows (row count/order are frame conditions)',
